@@ -4,6 +4,7 @@ from core import Case, Failure
 import toygen
 
 PROP = "C06"
+CONSTS = ['toy', 'mem']          # constant tables of the models this property depends on
 RULE = ("random TOY memory images (program length 0..20, data words, self-modifying stores, branches into and past "
         "the program, opcodes 13-15), stepped with step(); thorough adds a sweep of all 2^16 words as a single "
         "instruction on boundary accumulator/memory values; non-trivial = program executes >=2 instructions; "
